@@ -80,6 +80,9 @@ CHECKS = {
  "C27": ("netsim", "exploration", "deterministic simulation of the client byte stream: seeded frame sequences (well-formed and malformed) delivered in seeded fragments into the server's real decoder through the receive loop of connection.rs",
          "The server's protocol module is compiled into the harness by path. Oracles per decoder call: no panic; well-formed frames decode to the message sent under every fragmentation; exactly the frame is consumed and following bytes stay untouched; a malformed frame with a usable length is never answered by consuming bytes beyond it; a completely delivered well-formed frame is never left waiting.",
          "Sampling. Transport and receive loop are re-stated (Connection is welded to tokio::net::TcpStream); asking for more bytes on a negative/oversized length is accepted as the statement allows it.", "6/C27"),
+ "C30": ("pysim", "exploration", "deterministic simulation of DB-API call histories: seeded sequences of cursor.execute(sql, params) on the compiled extension module against a twin connection that executes harness-bound literal statements",
+         "Each run is a seeded history of execute calls (two cursors, texts re-used with other tuples, '?' inside literals, hostile strings, boundary numbers, bool/None, arity faults) on connection A; connection B receives the same statement with every placeholder outside string literals replaced by a literal written by the harness. After every call: same outcome class, same fetched rows, same table contents, and bound values of a full-row INSERT read back equal with their Python type.",
+         "Sampling. Special floats (NaN, infinities) are not bound (no literal to compare with). Single interpreter thread.", "6/C30"),
  "C32": ("dbsim", "exploration", "deterministic simulation: views created inside seeded histories and kept while data changes; every outer query executed over the view, over the inlined derived table and over a CTE",
          "After every step each view is queried through seeded outer queries (projection, pushed-down filters, aggregates, GROUP BY, DISTINCT, join with a base table) in three renderings - FROM view, FROM (defining query) AS v, WITH w AS (defining query) - which must agree bit-exactly; equality after each later write is what 'a view reflects the current contents' means here.",
          "Sampling. Views expose two columns; definitions cover filtered projection, explicit column list, expression column, GROUP BY, two-table join, view over view, DISTINCT.", "6/C32"),
@@ -127,6 +130,8 @@ def main():
         "engines": [
             {"name": "filesim", "path": "/verif/sim/filesim", "serves_properties": ["C20"],
              "kind_free_text": "fault injector over persisted database images with subprocess workers (panic/abort/hang/allocation attribution), images generated by the dbsim history generator"},
+            {"name": "pysim", "path": "/verif/sim/pysim", "serves_properties": ["C30"],
+             "kind_free_text": "seeded DB-API call-history driver in CPython over the compiled vibesql extension module (built from /repo), twin connection as reference"},
             {"name": "netsim", "path": "/verif/sim/netsim", "serves_properties": ["C27"],
              "kind_free_text": "simulated byte-stream transport (seeded fragmentation) feeding the server's real frontend-message decoder, with an independent encoder as client"},
             {"name": "dbsim", "path": "/verif/sim/dbsim", "serves_properties": sorted(p for p in CHECKS if CHECKS[p][0] == "dbsim"),
